@@ -29,6 +29,9 @@ def gen_prim(rng, allow_layers=True):
     if rng.random() < 0.6:
         nl = rng.choice([1, 1, 2, 3, 4]) if allow_layers else 1
         rs = sorted(dy(rng, 0.25, 4) for _ in range(nl))
+        if allow_layers and rng.random() < 0.3:
+            # LayeredSphere: described by layer thicknesses (1-4 layers), radii = running sums
+            return ("lsph", c, [dy(rng, 0.125, 1.5) for _ in range(rng.choice([1, 2, 3, 4]))])
         if nl > 1 and rng.random() < 0.25:
             rng.shuffle(rs)  # non-monotone radii: the "first indicator wins" rule matters
         return ("sph", c, rs)
@@ -46,7 +49,17 @@ def gen_shape(rng, depth):
     return (op, a, b)
 
 
+def cums(ts):
+    out, acc = [], 0.0
+    for t in ts:
+        acc += t
+        out.append(acc)
+    return out
+
+
 def shape_lit(s):
+    if s[0] == "lsph":
+        return "(Sph %s (layered_radii QO %s))" % (vlit(s[1]), listlit([qlit(t) for t in s[2]]))
     if s[0] == "sph":
         return "(Sph %s %s)" % (vlit(s[1]), listlit([qlit(r) for r in s[2]]))
     if s[0] == "ell":
@@ -58,6 +71,9 @@ def shape_lit(s):
 def build(s, n=1.5):
     from holopy.scattering import Sphere, Ellipsoid
     from holopy.scattering.scatterer.csg import Union, Difference, Intersection
+    from holopy.scattering import LayeredSphere
+    if s[0] == "lsph":
+        return LayeredSphere(n=[n + 0.125 * i for i in range(len(s[2]))], t=list(s[2]), center=tuple(s[1]))
     if s[0] == "sph":
         rs = s[2]
         if len(rs) == 1:
@@ -70,6 +86,8 @@ def build(s, n=1.5):
 
 
 def prims(s):
+    if s[0] == "lsph":
+        return [("sph", s[1], cums(s[2]))]
     if s[0] in ("sph", "ell"):
         return [s]
     return prims(s[1]) + prims(s[2])
@@ -138,6 +156,8 @@ def stage_containment(ctx):
                                               gen_prim(rng, False), gen_prim(rng, False))
         pts = query_points(rng, s, rng.choice([4, 8, 12]))
         t = [dy(rng, -3, 3) for _ in range(3)]
+        while len(set(t)) < 3:
+            t = [dy(rng, -3, 3) for _ in range(3)]
         try:
             obj = build(s)
         except TypeError as e:
@@ -150,9 +170,19 @@ def stage_containment(ctx):
         dom = [int(x) for x in np.asarray(obj.in_domain(P)).astype(int)]
         cont = [bool(x) for x in obj.contains(P)]
         b = obj.bounds
-        tr = obj.translated(t)
+        form = rng.choice(["list", "array", "three-scalars", "tuple"])
+        if form == "three-scalars":
+            tr = obj.translated(t[0], t[1], t[2])
+        elif form == "array":
+            tr = obj.translated(np.array(t))
+        elif form == "tuple":
+            tr = obj.translated(tuple(t))
+        else:
+            tr = obj.translated(list(t))
+        ctx.count("translated-form:" + form)
         cont_t = [bool(x) for x in tr.contains(P + np.array(t))]
-        kind = s[0]
+        kind = "sph" if s[0] == "lsph" else s[0]
+        ctx.count("class:" + type(obj).__name__)
         ctx.count("shape:" + kind)
         ctx.count("points", len(pts))
         ctx.count("inside", sum(cont))
@@ -176,7 +206,7 @@ def stage_containment(ctx):
         for tag, e in (("in_domain", e_dom), ("contains", e_cont), ("bounds", e_bounds),
                        ("translated", e_tr), ("inbox", e_inbox)):
             exprs.append(e)
-            metas.append(dict(case=k, what=tag, shape=s, points=pts, t=t, impl=dict(
+            metas.append(dict(case=k, what=tag, shape=s, points=pts, t=t, translated_form=form, impl=dict(
                 dom=dom, contains=cont, bounds=[list(map(float, pr)) for pr in b], contains_translated=cont_t)))
         # direct property predicate on the implementation (independent of the model):
         # translating translates the region
@@ -185,7 +215,7 @@ def stage_containment(ctx):
             bad = [i for i in range(len(pts)) if cont_t[i] != cont[i]]
             ctx.violation("translate:%s" % ("csg" if kind not in ("sph", "ell") else kind),
                           "translated(t).contains(p+t) != contains(p) for %s" % kind,
-                          dict(kind="translate", shape=s, t=t, point=pts[bad[0]],
+                          dict(kind="translate", shape=s, t=t, form=form, point=pts[bad[0]],
                                before=cont[bad[0]], after=cont_t[bad[0]]))
         if k < 3:
             ctx.sample(dict(shape=s, points=pts[:3], in_domain=dom[:3], bounds=[list(map(float, pr)) for pr in b]))
@@ -195,7 +225,7 @@ def stage_containment(ctx):
         ctx.violation("corr-eval-error", "model evaluation failed: " + e[:300], dict(kind="coq-error", log=e), nofail=True)
     for i in mism:
         m = metas[i]
-        kindkey = m["shape"][0] if m["shape"][0] in ("sph", "ell") else "csg"
+        kindkey = {"sph": "sph", "lsph": "sph", "ell": "ell"}.get(m["shape"][0], "csg")
         ctx.disagree("corr:%s:%s" % (m["what"], kindkey),
                      "model and implementation disagree on %s of a %s" % (m["what"], kindkey),
                      dict(kind="corr-containment", **m))
@@ -431,7 +461,7 @@ def replay(ctx, data):
         p = np.array([d["point"]])
         t = np.array(d["t"])
         a = bool(obj.contains(p)[0])
-        b = bool(obj.translated(list(t)).contains(p + t)[0])
+        b = bool((obj.translated(*[float(x) for x in t]) if d.get("form") == "three-scalars" else obj.translated(list(t))).contains(p + t)[0])
         ctx.explored += 1
         print("replay: contains(p)=%s translated(t).contains(p+t)=%s" % (a, b))
         if a != b:
@@ -443,6 +473,6 @@ def replay(ctx, data):
 
 
 def _tuplify(s):
-    if s[0] in ("sph", "ell"):
+    if s[0] in ("sph", "ell", "lsph"):
         return (s[0], s[1], s[2])
     return (s[0], _tuplify(s[1]), _tuplify(s[2]))
